@@ -390,6 +390,50 @@ func seq(n int) []int {
 	return s
 }
 
+// genLarge draws graphs beyond the sizes the other parts reach: 11..20 stages, up to complete forward density,
+// no or rare back edges, declared dependencies-first, dependants-first or shuffled.
+func genLarge(rt *rapid.T) Case {
+	n := rapid.IntRange(11, 20).Draw(rt, "n")
+	c := Case{N: n}
+	density := rapid.IntRange(4, 12).Draw(rt, "density") // forward edge probability density/12
+	back := rapid.IntRange(0, 3).Draw(rt, "back") == 0
+	hidden := rapid.Permutation(seq(n)).Draw(rt, "hidden")
+	for a := 0; a < n; a++ {
+		for b := a + 1; b < n; b++ {
+			if density == 12 || rapid.IntRange(0, 11).Draw(rt, "e") < density {
+				c.Edges = append(c.Edges, [2]int{hidden[a], hidden[b]})
+			}
+		}
+	}
+	if back {
+		a, b := rapid.IntRange(1, n-1).Draw(rt, "back-from"), 0
+		b = rapid.IntRange(0, a-1).Draw(rt, "back-to")
+		c.Edges = append(c.Edges, [2]int{hidden[a], hidden[b]})
+	}
+	switch rapid.IntRange(0, 2).Draw(rt, "declaration") {
+	case 0: // dependencies first
+		c.Order = append([]int{}, hidden...)
+	case 1: // dependants first
+		for i := n - 1; i >= 0; i-- {
+			c.Order = append(c.Order, hidden[i])
+		}
+	default:
+		c.Order = rapid.Permutation(seq(n)).Draw(rt, "order")
+	}
+	return c
+}
+
+// TestLarge: acceptance and the exposed edges must not depend on size, density or declaration order.
+func TestLarge(t *testing.T) {
+	rapid.Check(t, func(rt *rapid.T) {
+		c := genLarge(rt)
+		drv.Sample(c)
+		if err := runAPI(c); err != nil {
+			drv.Fail(rt, "large", "", c, "%v; case %s", err, c.canon())
+		}
+	})
+}
+
 func TestRandom(t *testing.T) {
 	rapid.Check(t, func(rt *rapid.T) {
 		c := genCase(rt, 10)
